@@ -39,11 +39,44 @@
        corrupt_rejected_attribute_partial        (first-statement sites, with the column)
        corrupt_rejected_type_name_suffix_partial a character outside [A-Za-z0-9] (not blank, not `=`) and more text appended to the
                                                  type name of an alias; GAP: `enum` / `struct` lines
-   * Not proved (differential runs only): the remaining operators of the catalogue (member / constant name classes, too-short
-     names, unknown keyword / function / transform / condition operator, deleted operand / parenthesis / comma,
-     two statements on one line, attribute arity, trailing text, indented top-level lines, over-indented members). *)
+   * Every site, with line AND column (Cats/SyntaxRejectBodyProofs.v: the lines in front of the site are run through the automaton,
+     which gives the state in which the replaced line is delivered; the premise is then about the ONE line parser of that site):
+       member_line_replaced_if, member_attribute_line_replaced_if, enum_value_line_replaced_if, top_level_line_replaced_if,
+       keyword_line_replaced_if     ANY member line / member attribute line of any struct, ANY value line of any enum, ANY attribute
+                                    line / keyword line of any top-level item replaced by a content its line parser rejects:
+                                    Error at that line, column of the offending token.
+     Operators of the catalogue, at ALL their sites, with the column (the name says which):
+       corrupt_rejected_deleted_operand_member / _value / _alias        `deleted-operand`, complete
+       corrupt_rejected_width_member / _enum_header / _alias            `width-*`, complete (any text that starts with no width of the grammar)
+       corrupt_rejected_type_name_column                                `type-name-lower-case`, `-too-short`, `-all-caps`, complete
+       corrupt_rejected_type_name_suffix                                `type-name-with-<character>`, complete
+       corrupt_rejected_member_name_suffix                              `member-name-with-<character>`, complete
+       corrupt_rejected_const_name_suffix_value / _member               `const-name-with-<character>`, complete
+       corrupt_rejected_value_name_lower_case                           `const-name-lower-case` on enum values
+       corrupt_rejected_member_name_class                               `member-name-too-short`, `member-name-capitalised`
+       corrupt_rejected_unknown_keyword                                 `unknown-keyword`, complete
+       corrupt_rejected_attribute_member_column / _declaration_column   `unknown-attribute`, complete
+       corrupt_rejected_attribute_arity_member_extra / _member_empty / _declaration_extra / _declaration_empty
+                                                                        `attribute-without-arguments` complete; `attribute-with-extra-argument`
+                                                                        on attributes that take no arguments
+       corrupt_rejected_unknown_transform                               `unknown-transform`, complete
+       corrupt_rejected_missing_parenthesis_declaration_attribute / _member_attribute / _member_partial / _alias
+                                                                        `deleted-left-parenthesis`; MISSING: members named `__value__`
+       corrupt_rejected_missing_closing_parenthesis_declaration_attribute_partial / _member_attribute_partial
+                                                                        `deleted-right-parenthesis` on attribute lines with a fixed number of arguments
+       corrupt_rejected_condition_operator                              `unknown-condition-operator` (and misspelt operators that start
+                                                                        with no operator), complete (_partial: property-named members only)
+       corrupt_rejected_operand_member_partial / _value_member / _const_member / _alias
+                                                                        `unknown-function`, complete together
+       corrupt_rejected_trailing_text_plain_member_partial              `trailing-text` on plain members without condition (any name)
+       corrupt_rejected_member_outside_keyword_line / _attribute_line   `member-outside-declaration` inside the head of a declaration
+       corrupt_rejected_final_line_end_comment, corrupt_rejected_final_line_end
+                                                                        `deleted-final-line-end`, complete (last item a free comment included)
+   * Not proved (differential runs only): deleted right parenthesis on the other lines, deleted comma, one more argument in a non-empty argument list, trailing text and
+     two statements on one line outside plain members, `const-name-lower-case` on constant members, misspelt condition operators that
+     still start with an operator (`inn`), indented top-level lines, over-indented members, a line inserted inside a comment block. *)
 From Coq Require Import Lia ZifyBool.
-From Symv Require Import Base.Bytes Cats.Ast Cats.Syntax Cats.SyntaxLexProofs Cats.SyntaxProofs Cats.SyntaxRejectProofs.
+From Symv Require Import Base.Bytes Cats.Ast Cats.Syntax Cats.SyntaxLexProofs Cats.SyntaxProofs Cats.SyntaxRejectProofs Cats.SyntaxRejectBodyProofs Cats.SyntaxRejectEofProofs.
 Open Scope Z_scope.
 
 Lemma terminals_ok : terms_ok T_now = true.
@@ -303,6 +336,659 @@ Proof.
 Qed.
 Print Assumptions corrupt_rejected_type_name_suffix_partial.
 
+(* ------------------------------------------------------------------------------------------------------------------ *)
+(* every site, with the line AND the column: the line parser of the site *)
+
+(* The sites are addressed structurally: the document is pre ++ declaration :: post, the member is f in s_fields s = fs1 ++ f :: fs2
+   (the value is v in vals = vs1 ++ v :: vs2, the attribute is a in as1 ++ a :: as2); the theorems give the 0-based physical line k of
+   the site as a function of these (member_line, member_attr_line, value_line, length (top_prefix ...)) together with the fact that
+   line k of the rendered document IS the line of the member / attribute / value. *)
+Lemma cr_now st : cr_ok T_now (style_cr st).
+Proof. unfold cr_ok, style_cr. destruct (st_crlf st); [right; split; reflexivity|left; reflexivity]. Qed.
+
+(* [core] the line of ANY member (at any position of any struct) replaced by a content that the member-line parser rejects *)
+Theorem member_line_replaced_if : forall st pre s post fs1 f fs2 c' sfx,
+  wf_style st = true -> wf_doc (pre ++ IDecl (DStruct s) :: post) = true -> s_fields s = fs1 ++ f :: fs2 ->
+  pline_ok (PStmt (st_indent st) c') = true -> (forall ac, parse_member_line T_now (has_attrs f) ac c' = LErr sfx) ->
+  let ds := pre ++ IDecl (DStruct s) :: post in let k := member_line T_now st pre s fs1 f in
+  nth_error (tlines T_now st ds) k = Some (PStmt (st_indent st) (r_field T_now st f))
+  /\ parse (replace_line st ds k c')
+     = Error {| e_line := 1 + Z.of_nat k; e_col := len (st_indent st) + 1 + len c' - len sfx; e_kind := EToken |}.
+Proof.
+  intros st pre s post fs1 f fs2 c' sfx Hst.
+  exact (SyntaxRejectBodyProofs.member_line_replaced T_now terminals_ok eq_refl st Hst (cr_now st) pre s post fs1 f fs2 c' sfx).
+Qed.
+Print Assumptions member_line_replaced_if.
+
+(* [core] ANY attribute line of ANY member replaced (pending as1: attribute lines of the same member precede) *)
+Theorem member_attribute_line_replaced_if : forall st pre s post fs1 f fs2 as1 a as2 c' sfx,
+  wf_style st = true -> wf_doc (pre ++ IDecl (DStruct s) :: post) = true -> s_fields s = fs1 ++ f :: fs2 ->
+  field_attrs f = Some (as1 ++ a :: as2) ->
+  pline_ok (PStmt (st_indent st) c') = true -> (forall ac, parse_member_line T_now (pending as1) ac c' = LErr sfx) ->
+  let ds := pre ++ IDecl (DStruct s) :: post in let k := member_attr_line T_now st pre s fs1 f as1 in
+  nth_error (tlines T_now st ds) k = Some (PStmt (st_indent st) (r_attr T_now st CField a))
+  /\ parse (replace_line st ds k c')
+     = Error {| e_line := 1 + Z.of_nat k; e_col := len (st_indent st) + 1 + len c' - len sfx; e_kind := EToken |}.
+Proof.
+  intros st pre s post fs1 f fs2 as1 a as2 c' sfx Hst.
+  exact (SyntaxRejectBodyProofs.member_attr_line_replaced T_now terminals_ok eq_refl st Hst (cr_now st) pre s post fs1 f fs2 as1 a as2 c' sfx).
+Qed.
+Print Assumptions member_attribute_line_replaced_if.
+
+(* [core] the line of ANY value (at any position of any enum) replaced by a content that the value-line parser rejects *)
+Theorem enum_value_line_replaced_if : forall st pre n b vals attrs c post vs1 v vs2 c' sfx,
+  wf_style st = true -> wf_doc (pre ++ IDecl (DEnum n b vals attrs c) :: post) = true -> vals = vs1 ++ v :: vs2 ->
+  pline_ok (PStmt (st_indent st) c') = true -> parse_enum_line T_now c' = LErr sfx ->
+  let ds := pre ++ IDecl (DEnum n b vals attrs c) :: post in let k := value_line T_now st pre n b attrs c vs1 v in
+  nth_error (tlines T_now st ds) k = Some (PStmt (st_indent st) (r_value T_now st v))
+  /\ parse (replace_line st ds k c')
+     = Error {| e_line := 1 + Z.of_nat k; e_col := len (st_indent st) + 1 + len c' - len sfx; e_kind := EToken |}.
+Proof.
+  intros st pre n b vals attrs c post vs1 v vs2 c' sfx Hst.
+  exact (SyntaxRejectBodyProofs.value_line_replaced T_now terminals_ok eq_refl st Hst (cr_now st) pre n b vals attrs c post vs1 v vs2 c' sfx).
+Qed.
+Print Assumptions enum_value_line_replaced_if.
+
+(* [core] ANY top-level statement line replaced: the lines of the item are its comment, attribute lines as1 (of an enum: ctx = CEnum,
+   of a struct: ctx = CStruct), the line, and more; the parser is the top-level one in the state after as1 *)
+Theorem top_level_line_replaced_if : forall st pre it post cmt ctx as1 c rest0 c' sfx,
+  wf_style st = true -> wf_doc (pre ++ it :: post) = true -> ctx <> CField ->
+  item_tlines T_now st it = comment_tlines [] cmt ++ map (PStmt []) (map (r_attr T_now st ctx) as1) ++ PStmt [] c :: rest0 ->
+  wf_comment T_now cmt = true -> forallb (wf_attr T_now ctx) as1 = true ->
+  pline_ok (PStmt [] c') = true -> (forall ac, parse_top_line T_now (pa_ctx (pa_of ctx as1)) ac c' = LErr sfx) ->
+  let ds := pre ++ it :: post in let k := length (top_prefix T_now st pre cmt ctx as1) in
+  nth_error (tlines T_now st ds) k = Some (PStmt [] c)
+  /\ parse (replace_line st ds k c') = Error {| e_line := 1 + Z.of_nat k; e_col := 1 + len c' - len sfx; e_kind := EToken |}.
+Proof.
+  intros st pre it post cmt ctx as1 c rest0 c' sfx Hst.
+  exact (SyntaxRejectBodyProofs.top_line_replaced T_now terminals_ok eq_refl st Hst (cr_now st) pre it post cmt ctx as1 c rest0 c' sfx).
+Qed.
+Print Assumptions top_level_line_replaced_if.
+
+(* ------------------------------------------------------------------------------------------------------------------ *)
+(* operators of the catalogue at ALL their sites, with line and column *)
+
+(* [core] `deleted-operand`, complete: the line of ANY member `name = ...` of any struct, of ANY value of any enum, of ANY alias, cut
+   after the `=`; the error is at the end of the line *)
+Theorem corrupt_rejected_deleted_operand_member : forall st pre s post fs1 f fs2 n,
+  wf_style st = true -> wf_doc (pre ++ IDecl (DStruct s) :: post) = true -> s_fields s = fs1 ++ f :: fs2 -> field_name f = Some n ->
+  let ds := pre ++ IDecl (DStruct s) :: post in let k := member_line T_now st pre s fs1 f in let c' := of_string n ++ [32; 61] in
+  nth_error (tlines T_now st ds) k = Some (PStmt (st_indent st) (r_field T_now st f))
+  /\ parse (replace_line st ds k c') = Error {| e_line := 1 + Z.of_nat k; e_col := len (st_indent st) + 1 + len c'; e_kind := EToken |}.
+Proof.
+  intros st pre s post fs1 f fs2 n Hst.
+  exact (SyntaxRejectBodyProofs.member_deleted_operand_doc T_now terminals_ok eq_refl st Hst (cr_now st) pre s post fs1 f fs2 n).
+Qed.
+Print Assumptions corrupt_rejected_deleted_operand_member.
+
+Theorem corrupt_rejected_deleted_operand_value : forall st pre n b vals attrs c post vs1 v vs2,
+  wf_style st = true -> wf_doc (pre ++ IDecl (DEnum n b vals attrs c) :: post) = true -> vals = vs1 ++ v :: vs2 ->
+  let ds := pre ++ IDecl (DEnum n b vals attrs c) :: post in let k := value_line T_now st pre n b attrs c vs1 v in
+  let c' := of_string (ev_name v) ++ [32; 61] in
+  nth_error (tlines T_now st ds) k = Some (PStmt (st_indent st) (r_value T_now st v))
+  /\ parse (replace_line st ds k c') = Error {| e_line := 1 + Z.of_nat k; e_col := len (st_indent st) + 1 + len c'; e_kind := EToken |}.
+Proof.
+  intros st pre n b vals attrs c post vs1 v vs2 Hst.
+  exact (SyntaxRejectBodyProofs.value_deleted_operand_doc T_now terminals_ok eq_refl st Hst (cr_now st) pre n b vals attrs c post vs1 v vs2).
+Qed.
+Print Assumptions corrupt_rejected_deleted_operand_value.
+
+Theorem corrupt_rejected_deleted_operand_alias : forall st pre n l c post,
+  wf_style st = true -> wf_doc (pre ++ IDecl (DAlias n l c) :: post) = true ->
+  let ds := pre ++ IDecl (DAlias n l c) :: post in let k := keyword_line T_now st pre (IDecl (DAlias n l c)) in
+  let c' := kw_using T_now ++ [32] ++ of_string n ++ [32; 61] in
+  nth_error (tlines T_now st ds) k = Some (PStmt [] (r_alias T_now st n l))
+  /\ parse (replace_line st ds k c') = Error {| e_line := 1 + Z.of_nat k; e_col := 1 + len c'; e_kind := EToken |}.
+Proof.
+  intros st pre n l c post Hst.
+  exact (SyntaxRejectBodyProofs.alias_deleted_operand_doc T_now terminals_ok eq_refl st Hst (cr_now st) pre n l c post).
+Qed.
+Print Assumptions corrupt_rejected_deleted_operand_alias.
+
+(* [core] `const-name-lower-case` on enum bodies, complete (and more): any content that starts with a lower-case letter in place of
+   ANY value line of ANY enum; the error is at the first character of the line *)
+Theorem corrupt_rejected_value_name_lower_case : forall st pre n b vals attrs c post vs1 v vs2 c' h,
+  wf_style st = true -> wf_doc (pre ++ IDecl (DEnum n b vals attrs c) :: post) = true -> vals = vs1 ++ v :: vs2 ->
+  head_is h c' = true -> is_lower h = true -> plainc c' = true ->
+  let ds := pre ++ IDecl (DEnum n b vals attrs c) :: post in let k := value_line T_now st pre n b attrs c vs1 v in
+  nth_error (tlines T_now st ds) k = Some (PStmt (st_indent st) (r_value T_now st v))
+  /\ parse (replace_line st ds k c') = Error {| e_line := 1 + Z.of_nat k; e_col := len (st_indent st) + 1; e_kind := EToken |}.
+Proof.
+  intros st pre n b vals attrs c post vs1 v vs2 c' h Hst.
+  exact (SyntaxRejectBodyProofs.value_lower_case_doc T_now terminals_ok eq_refl st Hst (cr_now st) pre n b vals attrs c post vs1 v vs2 c' h).
+Qed.
+Print Assumptions corrupt_rejected_value_name_lower_case.
+
+(* [core] `width-*`, complete, with the column: the sites of the operator are the lines that END with an integer type, i.e. members
+   `name = [u]intW` (also `__value__ = [u]intW`) of any struct, the header `enum Name : [u]intW` of any enum and the line
+   `using Name = [u]intW` of any alias (this closes the gaps of corrupt_rejected_width_partial / _width_member_partial); wd is any text
+   that does not start with a width of the grammar (24, 7, 128, 12, 17, 33, 65, 9, 15, 08, 0, 1, 63, 016 of the catalogue) *)
+Theorem corrupt_rejected_width_member : forall st wd pre s post fs1 n i attrs c fs2,
+  forallb (fun x => negb (is_prefix x wd)) (int_widths T_now) = true -> plainc wd = true ->
+  wf_style st = true -> wf_doc (pre ++ IDecl (DStruct s) :: post) = true -> s_fields s = fs1 ++ Field n (FInt i) VNone DispNone attrs c :: fs2 ->
+  let f := Field n (FInt i) VNone DispNone attrs c in
+  let ds := pre ++ IDecl (DStruct s) :: post in let k := member_line T_now st pre s fs1 f in
+  nth_error (tlines T_now st ds) k = Some (PStmt (st_indent st) (r_field T_now st f))
+  /\ parse (replace_line st ds k (of_string n ++ [32; 61; 32] ++ int_prefix T_now i ++ wd))
+     = Error {| e_line := 1 + Z.of_nat k; e_col := len (st_indent st) + 1 + len (of_string n) + 3; e_kind := EToken |}.
+Proof.
+  intros st wd pre s post fs1 n i attrs c fs2 Hw Hp Hst.
+  exact (SyntaxRejectBodyProofs.member_width_doc T_now terminals_ok eq_refl st Hst (cr_now st) wd pre s post fs1 n i attrs c fs2 Hw Hp).
+Qed.
+Print Assumptions corrupt_rejected_width_member.
+
+Theorem corrupt_rejected_width_enum_header : forall st wd pre n b vals attrs c post,
+  forallb (fun x => negb (is_prefix x wd)) (int_widths T_now) = true -> plainc wd = true ->
+  wf_style st = true -> wf_doc (pre ++ IDecl (DEnum n b vals attrs c) :: post) = true ->
+  let ds := pre ++ IDecl (DEnum n b vals attrs c) :: post in let k := length (top_prefix T_now st pre c CEnum (attrs_list attrs)) in
+  let head := kw_enum T_now ++ [32] ++ of_string n ++ [32; 58; 32] in
+  nth_error (tlines T_now st ds) k = Some (PStmt [] (r_enum_header T_now n b))
+  /\ parse (replace_line st ds k (head ++ int_prefix T_now b ++ wd)) = Error {| e_line := 1 + Z.of_nat k; e_col := 1 + len head; e_kind := EToken |}.
+Proof.
+  intros st wd pre n b vals attrs c post Hw Hp Hst.
+  exact (SyntaxRejectBodyProofs.enum_header_width_doc T_now terminals_ok eq_refl st Hst (cr_now st) wd pre n b vals attrs c post Hw Hp).
+Qed.
+Print Assumptions corrupt_rejected_width_enum_header.
+
+(* [core] `unknown-condition-operator` (and `...-misspelt` / `...-words-run-together` whenever the new text starts with no operator of
+   the grammar): on ANY member `name = type if VALUE operator link` whose name is a property name, `bad` in place of `operator link`;
+   error at the column of `bad`.  MISSING: members named `__value__`. *)
+Theorem corrupt_rejected_condition_operator_partial : forall st bad pre s post fs1 n ty cnd attrs c fs2,
+  first_prefix (cond_ops T_now) bad = None -> stops is_ws bad = true -> plainc bad = true -> wf_prop T_now n = true ->
+  wf_style st = true -> wf_doc (pre ++ IDecl (DStruct s) :: post) = true -> s_fields s = fs1 ++ Field n ty (VCond cnd) DispNone attrs c :: fs2 ->
+  let f := Field n ty (VCond cnd) DispNone attrs c in
+  let ds := pre ++ IDecl (DStruct s) :: post in let k := member_line T_now st pre s fs1 f in
+  let head := of_string n ++ [32; 61; 32] ++ r_ftype T_now st ty ++ [32] ++ kw_if T_now ++ [32] ++ cv_text T_now st (c_value cnd) ++ [32] in
+  nth_error (tlines T_now st ds) k = Some (PStmt (st_indent st) (r_field T_now st f))
+  /\ parse (replace_line st ds k (head ++ bad)) = Error {| e_line := 1 + Z.of_nat k; e_col := len (st_indent st) + 1 + len head; e_kind := EToken |}.
+Proof.
+  intros st bad pre s post fs1 n ty cnd attrs c fs2 Hb Hws Hp Hn Hst.
+  exact (SyntaxRejectBodyProofs.member_condition_operator_doc T_now terminals_ok eq_refl st Hst (cr_now st) bad pre s post fs1 n ty cnd attrs c fs2 Hb Hws Hp Hn).
+Qed.
+Print Assumptions corrupt_rejected_condition_operator_partial.
+
+(* [core] `trailing-text` on ANY plain member without condition whose name is a property name: `name = type X`, error at X.
+   MISSING: the other forms of members and the other kinds of lines. *)
+Theorem corrupt_rejected_trailing_text_member_partial : forall st X pre s post fs1 n ty attrs c fs2,
+  strip_prefix (kw_if T_now) X = None -> stops is_ws X = true -> X <> [] -> plainc X = true -> wf_prop T_now n = true ->
+  wf_style st = true -> wf_doc (pre ++ IDecl (DStruct s) :: post) = true -> s_fields s = fs1 ++ Field n ty VNone DispNone attrs c :: fs2 ->
+  let f := Field n ty VNone DispNone attrs c in
+  let ds := pre ++ IDecl (DStruct s) :: post in let k := member_line T_now st pre s fs1 f in
+  let head := of_string n ++ [32; 61; 32] ++ r_ftype T_now st ty ++ [32] in
+  nth_error (tlines T_now st ds) k = Some (PStmt (st_indent st) (r_field T_now st f))
+  /\ parse (replace_line st ds k (head ++ X)) = Error {| e_line := 1 + Z.of_nat k; e_col := len (st_indent st) + 1 + len head; e_kind := EToken |}.
+Proof.
+  intros st X pre s post fs1 n ty attrs c fs2 Hif Hws Hne Hp Hn Hst.
+  exact (SyntaxRejectBodyProofs.member_trailing_text_doc T_now terminals_ok eq_refl st Hst (cr_now st) X pre s post fs1 n ty attrs c fs2 Hif Hws Hne Hp Hn).
+Qed.
+Print Assumptions corrupt_rejected_trailing_text_member_partial.
+
+(* [core] `unknown-attribute` with the column, complete: `@r` with r starting with no attribute name acceptable at the site, in place of
+   ANY attribute line of ANY member, enum or struct (r = zzq... of the catalogue: unknown_attribute_word below) *)
+Theorem corrupt_rejected_attribute_member_column : forall st r pre s post fs1 f fs2 as1 a as2,
+  find_attr (attr_tables T_now (Some CField)) r = None -> stops is_ws r = true -> plainc r = true ->
+  wf_style st = true -> wf_doc (pre ++ IDecl (DStruct s) :: post) = true -> s_fields s = fs1 ++ f :: fs2 -> field_attrs f = Some (as1 ++ a :: as2) ->
+  let ds := pre ++ IDecl (DStruct s) :: post in let k := member_attr_line T_now st pre s fs1 f as1 in
+  nth_error (tlines T_now st ds) k = Some (PStmt (st_indent st) (r_attr T_now st CField a))
+  /\ parse (replace_line st ds k (64 :: r)) = Error {| e_line := 1 + Z.of_nat k; e_col := len (st_indent st) + 2; e_kind := EToken |}.
+Proof.
+  intros st r pre s post fs1 f fs2 as1 a as2 Hf Hws Hp Hst.
+  exact (SyntaxRejectBodyProofs.member_attribute_unknown_doc T_now terminals_ok eq_refl st Hst (cr_now st) r pre s post fs1 f fs2 as1 a as2 Hf Hws Hp).
+Qed.
+Print Assumptions corrupt_rejected_attribute_member_column.
+
+Theorem corrupt_rejected_attribute_declaration_column : forall st r pre it post as1 a as2,
+  find_attr (attr_tables T_now (pa_ctx (pa_of (item_ctx it) as1))) r = None -> stops is_ws r = true -> plainc r = true ->
+  wf_style st = true -> wf_doc (pre ++ it :: post) = true -> item_attr_list it = as1 ++ a :: as2 ->
+  let ds := pre ++ it :: post in let k := attribute_line T_now st pre it as1 in
+  nth_error (tlines T_now st ds) k = Some (PStmt [] (r_attr T_now st (item_ctx it) a))
+  /\ parse (replace_line st ds k (64 :: r)) = Error {| e_line := 1 + Z.of_nat k; e_col := 2; e_kind := EToken |}.
+Proof.
+  intros st r pre it post as1 a as2 Hf Hws Hp Hst.
+  exact (SyntaxRejectBodyProofs.decl_attribute_unknown_doc T_now terminals_ok eq_refl st Hst (cr_now st) r pre it post as1 a as2 Hf Hws Hp).
+Qed.
+Print Assumptions corrupt_rejected_attribute_declaration_column.
+
+Theorem unknown_attribute_word : forall ctx rest, find_attr (attr_tables T_now ctx) (122 :: 122 :: 113 :: rest) = None.
+Proof. intros [[| |]|] rest; vm_compute; reflexivity. Qed.
+Print Assumptions unknown_attribute_word.
+
+(* [core] wrong attribute arity, complete for `attribute-with-extra-argument` on attributes without arguments and for
+   `attribute-without-arguments`: on ANY attribute line of ANY member, enum or struct
+     - an argument list `(X` after an attribute that takes no arguments: error at the parenthesis;
+     - the empty argument list `()` after an attribute that takes arguments: error at the closing parenthesis.
+   MISSING for `attribute-with-extra-argument`: one more argument in a non-empty argument list. *)
+Theorem corrupt_rejected_attribute_arity_member_extra : forall st X pre s post fs1 f fs2 as1 a as2,
+  attr_kind T_now CField (of_string (at_name a)) = Some AkZero -> plainc X = true ->
+  wf_style st = true -> wf_doc (pre ++ IDecl (DStruct s) :: post) = true -> s_fields s = fs1 ++ f :: fs2 -> field_attrs f = Some (as1 ++ a :: as2) ->
+  let ds := pre ++ IDecl (DStruct s) :: post in let k := member_attr_line T_now st pre s fs1 f as1 in
+  nth_error (tlines T_now st ds) k = Some (PStmt (st_indent st) (r_attr T_now st CField a))
+  /\ parse (replace_line st ds k (64 :: of_string (at_name a) ++ 40 :: X))
+     = Error {| e_line := 1 + Z.of_nat k; e_col := len (st_indent st) + 2 + len (of_string (at_name a)); e_kind := EToken |}.
+Proof.
+  intros st X pre s post fs1 f fs2 as1 a as2 Hk Hp Hst.
+  exact (SyntaxRejectBodyProofs.member_attribute_arity_doc T_now terminals_ok eq_refl st Hst (cr_now st) X pre s post fs1 f fs2 as1 a as2 Hk Hp).
+Qed.
+Print Assumptions corrupt_rejected_attribute_arity_member_extra.
+
+Theorem corrupt_rejected_attribute_arity_member_empty : forall st pre s post fs1 f fs2 as1 a as2 k0,
+  attr_kind T_now CField (of_string (at_name a)) = Some k0 -> k0 <> AkZero ->
+  wf_style st = true -> wf_doc (pre ++ IDecl (DStruct s) :: post) = true -> s_fields s = fs1 ++ f :: fs2 -> field_attrs f = Some (as1 ++ a :: as2) ->
+  let ds := pre ++ IDecl (DStruct s) :: post in let k := member_attr_line T_now st pre s fs1 f as1 in
+  nth_error (tlines T_now st ds) k = Some (PStmt (st_indent st) (r_attr T_now st CField a))
+  /\ parse (replace_line st ds k (64 :: of_string (at_name a) ++ [40; 41]))
+     = Error {| e_line := 1 + Z.of_nat k; e_col := len (st_indent st) + 3 + len (of_string (at_name a)); e_kind := EToken |}.
+Proof.
+  intros st pre s post fs1 f fs2 as1 a as2 k0 Hk Hz Hst.
+  exact (SyntaxRejectBodyProofs.member_attribute_no_args_doc T_now terminals_ok eq_refl st Hst (cr_now st) pre s post fs1 f fs2 as1 a as2 k0 Hk Hz).
+Qed.
+Print Assumptions corrupt_rejected_attribute_arity_member_empty.
+
+Theorem corrupt_rejected_attribute_arity_declaration_extra : forall st X pre it post as1 a as2,
+  wf_style st = true -> wf_doc (pre ++ it :: post) = true -> item_attr_list it = as1 ++ a :: as2 ->
+  attr_kind T_now (item_ctx it) (of_string (at_name a)) = Some AkZero -> plainc X = true ->
+  let ds := pre ++ it :: post in let k := attribute_line T_now st pre it as1 in
+  nth_error (tlines T_now st ds) k = Some (PStmt [] (r_attr T_now st (item_ctx it) a))
+  /\ parse (replace_line st ds k (64 :: of_string (at_name a) ++ 40 :: X))
+     = Error {| e_line := 1 + Z.of_nat k; e_col := 2 + len (of_string (at_name a)); e_kind := EToken |}.
+Proof.
+  intros st X pre it post as1 a as2 Hst.
+  exact (SyntaxRejectBodyProofs.decl_attribute_extra_args_doc T_now terminals_ok eq_refl st Hst (cr_now st) X pre it post as1 a as2).
+Qed.
+Print Assumptions corrupt_rejected_attribute_arity_declaration_extra.
+
+Theorem corrupt_rejected_attribute_arity_declaration_empty : forall st pre it post as1 a as2 k0,
+  wf_style st = true -> wf_doc (pre ++ it :: post) = true -> item_attr_list it = as1 ++ a :: as2 ->
+  attr_kind T_now (item_ctx it) (of_string (at_name a)) = Some k0 -> k0 <> AkZero ->
+  let ds := pre ++ it :: post in let k := attribute_line T_now st pre it as1 in
+  nth_error (tlines T_now st ds) k = Some (PStmt [] (r_attr T_now st (item_ctx it) a))
+  /\ parse (replace_line st ds k (64 :: of_string (at_name a) ++ [40; 41]))
+     = Error {| e_line := 1 + Z.of_nat k; e_col := 3 + len (of_string (at_name a)); e_kind := EToken |}.
+Proof.
+  intros st pre it post as1 a as2 k0 Hst.
+  exact (SyntaxRejectBodyProofs.decl_attribute_no_args_doc T_now terminals_ok eq_refl st Hst (cr_now st) pre it post as1 a as2 k0).
+Qed.
+Print Assumptions corrupt_rejected_attribute_arity_declaration_empty.
+
+(* [core] the keyword line (`using ...`, `import ...`, `enum ...`, `[modifier] struct ...`; also after attribute lines) of ANY item
+   replaced by a content the top-level parser rejects in the state of that line: generic, with line and column *)
+Theorem keyword_line_replaced_if : forall st pre it post c' sfx,
+  wf_style st = true -> wf_doc (pre ++ it :: post) = true -> (forall c, it <> IComment c) -> pline_ok (PStmt [] c') = true ->
+  (forall ac, parse_top_line T_now (pa_ctx (pa_of (item_ctx it) (item_attr_list it))) ac c' = LErr sfx) ->
+  let ds := pre ++ it :: post in let k := keyword_line T_now st pre it in
+  nth_error (tlines T_now st ds) k = Some (PStmt [] (keyword_text T_now st it))
+  /\ parse (replace_line st ds k c') = Error {| e_line := 1 + Z.of_nat k; e_col := 1 + len c' - len sfx; e_kind := EToken |}.
+Proof.
+  intros st pre it post c' sfx Hst.
+  exact (SyntaxRejectBodyProofs.keyword_line_replaced T_now terminals_ok eq_refl st Hst (cr_now st) pre it post c' sfx).
+Qed.
+Print Assumptions keyword_line_replaced_if.
+
+(* [core] `unknown-keyword`, complete: a content that starts with none of the top-level keywords (and not with `@`) in place of the
+   keyword line of ANY item; error at column 1 *)
+Theorem corrupt_rejected_unknown_keyword : forall st pre it post c',
+  wf_style st = true -> wf_doc (pre ++ it :: post) = true -> (forall c, it <> IComment c) -> head_stmt c' = true -> plainc c' = true ->
+  strip_prefix [64] c' = None -> strip_prefix (kw_import T_now) c' = None -> strip_prefix (kw_using T_now) c' = None ->
+  strip_prefix (kw_enum T_now) c' = None -> strip_prefix (kw_struct T_now) c' = None -> first_prefix (struct_modifiers T_now) c' = None ->
+  let ds := pre ++ it :: post in let k := keyword_line T_now st pre it in
+  nth_error (tlines T_now st ds) k = Some (PStmt [] (keyword_text T_now st it))
+  /\ parse (replace_line st ds k c') = Error {| e_line := 1 + Z.of_nat k; e_col := 1; e_kind := EToken |}.
+Proof.
+  intros st pre it post c' Hst.
+  exact (SyntaxRejectBodyProofs.unknown_keyword_doc T_now terminals_ok eq_refl st Hst (cr_now st) pre it post c').
+Qed.
+Print Assumptions corrupt_rejected_unknown_keyword.
+
+(* [core] type name of the wrong class with the column, complete for `type-name-lower-case`, `type-name-too-short`, `type-name-all-caps`:
+   on the `using` / `enum` / `[modifier] struct` line of ANY declaration, X (no type name at its start: raw_type = None) in place of the
+   name and the rest of the line; error at the column of X *)
+Theorem corrupt_rejected_type_name_column : forall st pre d post X,
+  wf_style st = true -> wf_doc (pre ++ IDecl d :: post) = true -> raw_type T_now X = None -> stops is_ws X = true -> plainc X = true ->
+  let ds := pre ++ IDecl d :: post in let k := keyword_line T_now st pre (IDecl d) in let head := type_line_head T_now (decl_type_line d) ++ [32] in
+  nth_error (tlines T_now st ds) k = Some (PStmt [] (keyword_text T_now st (IDecl d)))
+  /\ parse (replace_line st ds k (head ++ X)) = Error {| e_line := 1 + Z.of_nat k; e_col := 1 + len head; e_kind := EToken |}.
+Proof.
+  intros st pre d post X Hst.
+  exact (SyntaxRejectBodyProofs.type_name_doc T_now terminals_ok eq_refl st Hst (cr_now st) pre d post X).
+Qed.
+Print Assumptions corrupt_rejected_type_name_column.
+
+Theorem corrupt_rejected_width_alias : forall st wd pre n i c post,
+  forallb (fun x => negb (is_prefix x wd)) (int_widths T_now) = true -> plainc wd = true ->
+  wf_style st = true -> wf_doc (pre ++ IDecl (DAlias n (LInt i) c) :: post) = true ->
+  let it := IDecl (DAlias n (LInt i) c) in let ds := pre ++ it :: post in let k := keyword_line T_now st pre it in
+  nth_error (tlines T_now st ds) k = Some (PStmt [] (r_alias T_now st n (LInt i)))
+  /\ parse (replace_line st ds k (alias_head T_now n ++ int_prefix T_now i ++ wd))
+     = Error {| e_line := 1 + Z.of_nat k; e_col := 1 + len (alias_head T_now n); e_kind := EToken |}.
+Proof.
+  intros st wd pre n i c post Hw Hp Hst.
+  exact (SyntaxRejectBodyProofs.alias_width_doc T_now terminals_ok eq_refl st Hst (cr_now st) wd pre n i c post Hw Hp).
+Qed.
+Print Assumptions corrupt_rejected_width_alias.
+
+(* [core] `type-name-with-<character>`, complete (closes the gap of corrupt_rejected_type_name_suffix_partial): on the `using` / `enum` /
+   `[modifier] struct` line of ANY declaration, a character outside [A-Za-z0-9] (not blank, `=` or `:`) and more text after the name *)
+Theorem corrupt_rejected_type_name_suffix : forall st ch rest pre d post n,
+  type_rest ch = false -> is_ws ch = false -> ch <> 61 -> ch <> 58 -> plainc (ch :: rest) = true ->
+  wf_style st = true -> wf_doc (pre ++ IDecl d :: post) = true ->
+  n = match d with DAlias n _ _ => n | DEnum n _ _ _ _ => n | DStruct s => s_name s end ->
+  let ds := pre ++ IDecl d :: post in let k := keyword_line T_now st pre (IDecl d) in
+  let head := type_line_head T_now (decl_type_line d) ++ [32] ++ of_string n in
+  nth_error (tlines T_now st ds) k = Some (PStmt [] (keyword_text T_now st (IDecl d)))
+  /\ parse (replace_line st ds k (head ++ ch :: rest)) = Error {| e_line := 1 + Z.of_nat k; e_col := 1 + len head; e_kind := EToken |}.
+Proof.
+  intros st ch rest pre d post n Hch Hws H61 H58 Hp Hst.
+  exact (SyntaxRejectBodyProofs.type_name_suffix_doc T_now terminals_ok eq_refl st Hst (cr_now st) ch rest pre d post n Hch Hws H61 H58 Hp).
+Qed.
+Print Assumptions corrupt_rejected_type_name_suffix.
+
+(* [core] `member-name-with-<character>`, complete: ANY member whose name is a property name (the sites of the operator), a character
+   outside [a-z0-9_] (not blank, not `=`) and more text after the name; error at that character *)
+Theorem corrupt_rejected_member_name_suffix : forall st ch rest pre s post fs1 f fs2 n,
+  prop_rest ch = false -> is_ws ch = false -> ch <> 61 -> plainc (ch :: rest) = true -> wf_prop T_now n = true ->
+  wf_style st = true -> wf_doc (pre ++ IDecl (DStruct s) :: post) = true -> s_fields s = fs1 ++ f :: fs2 -> field_name f = Some n ->
+  let ds := pre ++ IDecl (DStruct s) :: post in let k := member_line T_now st pre s fs1 f in
+  nth_error (tlines T_now st ds) k = Some (PStmt (st_indent st) (r_field T_now st f))
+  /\ parse (replace_line st ds k (of_string n ++ ch :: rest))
+     = Error {| e_line := 1 + Z.of_nat k; e_col := len (st_indent st) + 1 + len (of_string n); e_kind := EToken |}.
+Proof.
+  intros st ch rest pre s post fs1 f fs2 n Hch Hws H61 Hp Hn Hst.
+  exact (SyntaxRejectBodyProofs.member_name_suffix_doc T_now terminals_ok eq_refl st Hst (cr_now st) ch rest pre s post fs1 f fs2 n Hch Hws H61 Hp Hn).
+Qed.
+Print Assumptions corrupt_rejected_member_name_suffix.
+
+(* [core] `const-name-with-<character>`, complete: ANY value line of any enum and ANY constant member of any struct *)
+Theorem corrupt_rejected_const_name_suffix_value : forall st ch rest pre n b vals attrs c post vs1 v vs2,
+  const_rest ch = false -> is_ws ch = false -> ch <> 61 -> plainc (ch :: rest) = true ->
+  wf_style st = true -> wf_doc (pre ++ IDecl (DEnum n b vals attrs c) :: post) = true -> vals = vs1 ++ v :: vs2 ->
+  let ds := pre ++ IDecl (DEnum n b vals attrs c) :: post in let k := value_line T_now st pre n b attrs c vs1 v in
+  nth_error (tlines T_now st ds) k = Some (PStmt (st_indent st) (r_value T_now st v))
+  /\ parse (replace_line st ds k (of_string (ev_name v) ++ ch :: rest))
+     = Error {| e_line := 1 + Z.of_nat k; e_col := len (st_indent st) + 1 + len (of_string (ev_name v)); e_kind := EToken |}.
+Proof.
+  intros st ch rest pre n b vals attrs c post vs1 v vs2 Hch Hws H61 Hp Hst.
+  exact (SyntaxRejectBodyProofs.value_name_suffix_doc T_now terminals_ok eq_refl st Hst (cr_now st) ch rest pre n b vals attrs c post vs1 v vs2 Hch Hws H61 Hp).
+Qed.
+Print Assumptions corrupt_rejected_const_name_suffix_value.
+
+Theorem corrupt_rejected_const_name_suffix_member : forall st ch rest pre s post fs1 n ty v c fs2,
+  const_rest ch = false -> is_ws ch = false -> ch <> 61 -> plainc (ch :: rest) = true ->
+  wf_style st = true -> wf_doc (pre ++ IDecl (DStruct s) :: post) = true -> s_fields s = fs1 ++ Field n ty v DispConst None c :: fs2 ->
+  let f := Field n ty v DispConst None c in let ds := pre ++ IDecl (DStruct s) :: post in let k := member_line T_now st pre s fs1 f in
+  nth_error (tlines T_now st ds) k = Some (PStmt (st_indent st) (r_field T_now st f))
+  /\ parse (replace_line st ds k (of_string n ++ ch :: rest))
+     = Error {| e_line := 1 + Z.of_nat k; e_col := len (st_indent st) + 1 + len (of_string n); e_kind := EToken |}.
+Proof.
+  intros st ch rest pre s post fs1 n ty v c fs2 Hch Hws H61 Hp Hst.
+  exact (SyntaxRejectBodyProofs.const_member_name_suffix_doc T_now terminals_ok eq_refl st Hst (cr_now st) ch rest pre s post fs1 n ty v c fs2 Hch Hws H61 Hp).
+Qed.
+Print Assumptions corrupt_rejected_const_name_suffix_member.
+
+(* [core] `member-name-too-short`, `member-name-capitalised` (when the new first word is no constant name either): a content that starts
+   with no member name (no property name, no constant name, not `@`, not the placeholder) in place of ANY member line; error at its
+   first character *)
+Theorem corrupt_rejected_member_name_class : forall st X pre s post fs1 f fs2,
+  head_stmt X = true -> plainc X = true -> strip_prefix [64] X = None -> strip_prefix (value_placeholder T_now) X = None ->
+  raw_prop T_now X = None -> raw_const T_now X = None ->
+  wf_style st = true -> wf_doc (pre ++ IDecl (DStruct s) :: post) = true -> s_fields s = fs1 ++ f :: fs2 ->
+  let ds := pre ++ IDecl (DStruct s) :: post in let k := member_line T_now st pre s fs1 f in
+  nth_error (tlines T_now st ds) k = Some (PStmt (st_indent st) (r_field T_now st f))
+  /\ parse (replace_line st ds k X) = Error {| e_line := 1 + Z.of_nat k; e_col := len (st_indent st) + 1; e_kind := EToken |}.
+Proof.
+  intros st X pre s post fs1 f fs2 Hh Hp H64 Hvp Hrp Hrc Hst.
+  exact (SyntaxRejectBodyProofs.member_no_name_doc T_now terminals_ok eq_refl st Hst (cr_now st) X pre s post fs1 f fs2 Hh Hp H64 Hvp Hrp Hrc).
+Qed.
+Print Assumptions corrupt_rejected_member_name_class.
+
+(* [core] `unknown-function` (and any other operand that starts with nothing the grammar allows there): on ANY member whose name is a
+   property name, on ANY constant member and on ANY alias, X in place of everything after `= `; error at X.
+   MISSING: members named `__value__`; function names in the second position (`name = inline zzq(...)` does not occur). *)
+Theorem corrupt_rejected_operand_member_partial : forall st X pre s post fs1 f fs2 n,
+  stops is_ws X = true -> plainc X = true -> raw_type T_now X = None -> raw_intty T_now X = None -> strip_prefix (kw_array T_now) X = None ->
+  strip_prefix (kw_make_reserved T_now) X = None -> strip_prefix (kw_sizeof T_now) X = None -> strip_prefix (kw_inline_field T_now) X = None ->
+  wf_prop T_now n = true -> wf_style st = true -> wf_doc (pre ++ IDecl (DStruct s) :: post) = true -> s_fields s = fs1 ++ f :: fs2 -> field_name f = Some n ->
+  let ds := pre ++ IDecl (DStruct s) :: post in let k := member_line T_now st pre s fs1 f in
+  nth_error (tlines T_now st ds) k = Some (PStmt (st_indent st) (r_field T_now st f))
+  /\ parse (replace_line st ds k (of_string n ++ [32; 61; 32] ++ X))
+     = Error {| e_line := 1 + Z.of_nat k; e_col := len (st_indent st) + 1 + len (of_string n) + 3; e_kind := EToken |}.
+Proof.
+  intros st X pre s post fs1 f fs2 n Hws Hp Ht Hi Ha Hr Hsz Hif Hn Hst.
+  exact (SyntaxRejectBodyProofs.member_bad_operand_doc T_now terminals_ok eq_refl st Hst (cr_now st) X pre s post fs1 f fs2 n Hws Hp Ht Hi Ha Hr Hsz Hif Hn).
+Qed.
+Print Assumptions corrupt_rejected_operand_member_partial.
+
+Theorem corrupt_rejected_operand_const_member : forall st X pre s post fs1 n ty v c fs2,
+  stops is_ws X = true -> plainc X = true -> strip_prefix (kw_make_const T_now) X = None ->
+  wf_style st = true -> wf_doc (pre ++ IDecl (DStruct s) :: post) = true -> s_fields s = fs1 ++ Field n ty v DispConst None c :: fs2 ->
+  let f := Field n ty v DispConst None c in let ds := pre ++ IDecl (DStruct s) :: post in let k := member_line T_now st pre s fs1 f in
+  nth_error (tlines T_now st ds) k = Some (PStmt (st_indent st) (r_field T_now st f))
+  /\ parse (replace_line st ds k (of_string n ++ [32; 61; 32] ++ X))
+     = Error {| e_line := 1 + Z.of_nat k; e_col := len (st_indent st) + 1 + len (of_string n) + 3; e_kind := EToken |}.
+Proof.
+  intros st X pre s post fs1 n ty v c fs2 Hws Hp Hm Hst.
+  exact (SyntaxRejectBodyProofs.const_member_bad_operand_doc T_now terminals_ok eq_refl st Hst (cr_now st) X pre s post fs1 n ty v c fs2 Hws Hp Hm).
+Qed.
+Print Assumptions corrupt_rejected_operand_const_member.
+
+Theorem corrupt_rejected_operand_alias : forall st X pre n l c post,
+  stops is_ws X = true -> plainc X = true -> raw_intty T_now X = None -> strip_prefix (kw_binary_fixed T_now) X = None ->
+  wf_style st = true -> wf_doc (pre ++ IDecl (DAlias n l c) :: post) = true ->
+  let it := IDecl (DAlias n l c) in let ds := pre ++ it :: post in let k := keyword_line T_now st pre it in
+  nth_error (tlines T_now st ds) k = Some (PStmt [] (r_alias T_now st n l))
+  /\ parse (replace_line st ds k (alias_head T_now n ++ X)) = Error {| e_line := 1 + Z.of_nat k; e_col := 1 + len (alias_head T_now n); e_kind := EToken |}.
+Proof.
+  intros st X pre n l c post Hws Hp Hi Hb Hst.
+  exact (SyntaxRejectBodyProofs.alias_bad_operand_doc T_now terminals_ok eq_refl st Hst (cr_now st) X pre n l c post Hws Hp Hi Hb).
+Qed.
+Print Assumptions corrupt_rejected_operand_alias.
+
+(* [core] `unknown-transform`, complete: on ANY attribute line `@name(p1, ..., pk, p!transform...` of an attribute that takes
+   transforms (`comparer`), `bad` (starting with no transform name) in place of the FIRST transform of the line and of what follows *)
+Theorem corrupt_rejected_unknown_transform : forall st qs p bad pre it post as1 a as2,
+  attr_kind T_now (item_ctx it) (of_string (at_name a)) = Some AkTransform -> forallb (wf_prop T_now) qs = true -> wf_prop T_now p = true ->
+  first_prefix (transform_names T_now) bad = None -> stops is_ws bad = true -> plainc bad = true ->
+  wf_style st = true -> wf_doc (pre ++ it :: post) = true -> item_attr_list it = as1 ++ a :: as2 ->
+  let ds := pre ++ it :: post in let k := attribute_line T_now st pre it as1 in
+  let head := 64 :: of_string (at_name a) ++ 40 :: props_text qs ++ of_string p ++ [33] in
+  nth_error (tlines T_now st ds) k = Some (PStmt [] (r_attr T_now st (item_ctx it) a))
+  /\ parse (replace_line st ds k (head ++ bad)) = Error {| e_line := 1 + Z.of_nat k; e_col := 1 + len head; e_kind := EToken |}.
+Proof.
+  intros st qs p bad pre it post as1 a as2 Hk Hqs Hp Hb Hws Hpb Hst.
+  exact (SyntaxRejectBodyProofs.transform_doc T_now terminals_ok eq_refl st Hst (cr_now st) qs p bad pre it post as1 a as2 Hk Hqs Hp Hb Hws Hpb).
+Qed.
+Print Assumptions corrupt_rejected_unknown_transform.
+
+(* [core] `member-outside-declaration` inside the head of a declaration (together with corrupt_rejected_member_outside_partial, which
+   covers the item boundaries, this is every site of the operator except the lines inside a comment block): `zz = uint8` at column 0
+   in front of the keyword line of ANY item or of ANY attribute line of an enum or struct; error at column 1 of the new line *)
+Lemma member_text_rejected_at_top : forall ctx ac, parse_top_line T_now ctx ac member_text = LErr member_text.
+Proof. intros [[| |]|] [|]; vm_compute; reflexivity. Qed.
+
+Theorem corrupt_rejected_member_outside_keyword_line : forall st pre it post,
+  wf_style st = true -> wf_doc (pre ++ it :: post) = true -> (forall c, it <> IComment c) ->
+  let ds := pre ++ it :: post in let k := keyword_line T_now st pre it in
+  parse (insert_line st ds k member_text) = Error {| e_line := 1 + Z.of_nat k; e_col := 1; e_kind := EToken |}.
+Proof.
+  intros st pre it post Hst Hwf Hnc.
+  exact (SyntaxRejectBodyProofs.keyword_line_inserted T_now terminals_ok eq_refl st Hst (cr_now st) pre it post member_text member_text Hwf Hnc eq_refl
+           (fun ac => member_text_rejected_at_top _ ac)).
+Qed.
+Print Assumptions corrupt_rejected_member_outside_keyword_line.
+
+Theorem corrupt_rejected_member_outside_attribute_line : forall st pre it post as1 a as2,
+  wf_style st = true -> wf_doc (pre ++ it :: post) = true -> item_attr_list it = as1 ++ a :: as2 ->
+  let ds := pre ++ it :: post in let k := attribute_line T_now st pre it as1 in
+  parse (insert_line st ds k member_text) = Error {| e_line := 1 + Z.of_nat k; e_col := 1; e_kind := EToken |}.
+Proof.
+  intros st pre it post as1 a as2 Hst Hwf Hal.
+  exact (SyntaxRejectBodyProofs.attribute_line_inserted T_now terminals_ok eq_refl st Hst (cr_now st) pre it post as1 a as2 member_text member_text Hwf Hal eq_refl
+           (fun ac => member_text_rejected_at_top _ ac)).
+Qed.
+Print Assumptions corrupt_rejected_member_outside_attribute_line.
+
+(* [core] `deleted-left-parenthesis` (missing bracket), complete except members named `__value__`: on ANY attribute line with arguments
+   (of a member, an enum, a struct), on ANY member with a call (`array(`, `make_const(`, `make_reserved(`, `sizeof(`) and on ANY alias
+   of a buffer type, X (not starting with `(`) in place of everything after the word that must be followed by `(`; error at X *)
+Theorem corrupt_rejected_missing_parenthesis_declaration_attribute : forall st X pre it post as1 a as2 k0,
+  attr_kind T_now (item_ctx it) (of_string (at_name a)) = Some k0 -> k0 <> AkZero -> stops is_ws X = true -> strip_prefix [40] X = None -> plainc X = true ->
+  wf_style st = true -> wf_doc (pre ++ it :: post) = true -> item_attr_list it = as1 ++ a :: as2 ->
+  let ds := pre ++ it :: post in let k := attribute_line T_now st pre it as1 in
+  nth_error (tlines T_now st ds) k = Some (PStmt [] (r_attr T_now st (item_ctx it) a))
+  /\ parse (replace_line st ds k (64 :: of_string (at_name a) ++ X)) = Error {| e_line := 1 + Z.of_nat k; e_col := 2 + len (of_string (at_name a)); e_kind := EToken |}.
+Proof.
+  intros st X pre it post as1 a as2 k0 Hk Hz Hws HX Hp Hst.
+  exact (SyntaxRejectBodyProofs.decl_attribute_missing_open_doc T_now terminals_ok eq_refl st Hst (cr_now st) X pre it post as1 a as2 k0 Hk Hz Hws HX Hp).
+Qed.
+Print Assumptions corrupt_rejected_missing_parenthesis_declaration_attribute.
+
+Theorem corrupt_rejected_missing_parenthesis_member_attribute : forall st X pre s post fs1 f fs2 as1 a as2 k0,
+  attr_kind T_now CField (of_string (at_name a)) = Some k0 -> k0 <> AkZero -> stops is_ws X = true -> strip_prefix [40] X = None -> plainc X = true ->
+  wf_style st = true -> wf_doc (pre ++ IDecl (DStruct s) :: post) = true -> s_fields s = fs1 ++ f :: fs2 -> field_attrs f = Some (as1 ++ a :: as2) ->
+  let ds := pre ++ IDecl (DStruct s) :: post in let k := member_attr_line T_now st pre s fs1 f as1 in
+  nth_error (tlines T_now st ds) k = Some (PStmt (st_indent st) (r_attr T_now st CField a))
+  /\ parse (replace_line st ds k (64 :: of_string (at_name a) ++ X))
+     = Error {| e_line := 1 + Z.of_nat k; e_col := len (st_indent st) + 2 + len (of_string (at_name a)); e_kind := EToken |}.
+Proof.
+  intros st X pre s post fs1 f fs2 as1 a as2 k0 Hk Hz Hws HX Hp Hst.
+  exact (SyntaxRejectBodyProofs.member_attribute_missing_open_doc T_now terminals_ok eq_refl st Hst (cr_now st) X pre s post fs1 f fs2 as1 a as2 k0 Hk Hz Hws HX Hp).
+Qed.
+Print Assumptions corrupt_rejected_missing_parenthesis_member_attribute.
+
+Theorem corrupt_rejected_missing_parenthesis_member_partial : forall st X pre s post fs1 f fs2 n word,
+  stops is_ws X = true -> strip_prefix [40] X = None -> plainc X = true ->
+  wf_style st = true -> wf_doc (pre ++ IDecl (DStruct s) :: post) = true -> s_fields s = fs1 ++ f :: fs2 -> field_name f = Some n ->
+  call_word T_now f = Some word -> of_string n <> value_placeholder T_now ->
+  let ds := pre ++ IDecl (DStruct s) :: post in let k := member_line T_now st pre s fs1 f in let head := of_string n ++ [32; 61; 32] ++ word in
+  nth_error (tlines T_now st ds) k = Some (PStmt (st_indent st) (r_field T_now st f))
+  /\ parse (replace_line st ds k (head ++ X)) = Error {| e_line := 1 + Z.of_nat k; e_col := len (st_indent st) + 1 + len head; e_kind := EToken |}.
+Proof.
+  intros st X pre s post fs1 f fs2 n word Hws HX Hp Hst.
+  exact (SyntaxRejectBodyProofs.member_call_missing_open_doc T_now terminals_ok eq_refl st Hst (cr_now st) X pre s post fs1 f fs2 n word Hws HX Hp).
+Qed.
+Print Assumptions corrupt_rejected_missing_parenthesis_member_partial.
+
+Theorem corrupt_rejected_missing_parenthesis_alias : forall st X pre n size c post,
+  stops is_ws X = true -> strip_prefix [40] X = None -> plainc X = true ->
+  wf_style st = true -> wf_doc (pre ++ IDecl (DAlias n (LBuffer size) c) :: post) = true ->
+  let it := IDecl (DAlias n (LBuffer size) c) in let ds := pre ++ it :: post in let k := keyword_line T_now st pre it in
+  let head := alias_head T_now n ++ kw_binary_fixed T_now in
+  nth_error (tlines T_now st ds) k = Some (PStmt [] (r_alias T_now st n (LBuffer size)))
+  /\ parse (replace_line st ds k (head ++ X)) = Error {| e_line := 1 + Z.of_nat k; e_col := 1 + len head; e_kind := EToken |}.
+Proof.
+  intros st X pre n size c post Hws HX Hp Hst.
+  exact (SyntaxRejectBodyProofs.alias_buffer_missing_open_doc T_now terminals_ok eq_refl st Hst (cr_now st) X pre n size c post Hws HX Hp).
+Qed.
+Print Assumptions corrupt_rejected_missing_parenthesis_alias.
+
+(* [core] `deleted-right-parenthesis` on attribute lines: the last character (the closing parenthesis) of ANY attribute line with a
+   fixed number of arguments (fixed_arity: `alignment`, `sort_key`, `sizeref`, `size`, `initializes`) of ANY member, enum or struct
+   deleted; error at the end of the line.  MISSING for the operator: `discriminator` / `comparer` lines and the calls on member and
+   alias lines (`array(...`, `make_const(...`, `make_reserved(...`, `sizeof(...`, `binary_fixed(...`). *)
+Theorem corrupt_rejected_missing_closing_parenthesis_declaration_attribute_partial : forall st pre it post as1 a as2 k0,
+  attr_kind T_now (item_ctx it) (of_string (at_name a)) = Some k0 -> fixed_arity k0 = true ->
+  wf_style st = true -> wf_doc (pre ++ it :: post) = true -> item_attr_list it = as1 ++ a :: as2 ->
+  let ds := pre ++ it :: post in let k := attribute_line T_now st pre it as1 in let c' := removelast (r_attr T_now st (item_ctx it) a) in
+  nth_error (tlines T_now st ds) k = Some (PStmt [] (r_attr T_now st (item_ctx it) a))
+  /\ parse (replace_line st ds k c') = Error {| e_line := 1 + Z.of_nat k; e_col := 1 + len c'; e_kind := EToken |}.
+Proof.
+  intros st pre it post as1 a as2 k0 Hk Hf Hst.
+  exact (SyntaxRejectBodyProofs.decl_attribute_missing_close_doc T_now terminals_ok eq_refl st Hst (cr_now st) pre it post as1 a as2 k0 Hk Hf).
+Qed.
+Print Assumptions corrupt_rejected_missing_closing_parenthesis_declaration_attribute_partial.
+
+Theorem corrupt_rejected_missing_closing_parenthesis_member_attribute_partial : forall st pre s post fs1 f fs2 as1 a as2 k0,
+  attr_kind T_now CField (of_string (at_name a)) = Some k0 -> fixed_arity k0 = true ->
+  wf_style st = true -> wf_doc (pre ++ IDecl (DStruct s) :: post) = true -> s_fields s = fs1 ++ f :: fs2 -> field_attrs f = Some (as1 ++ a :: as2) ->
+  let ds := pre ++ IDecl (DStruct s) :: post in let k := member_attr_line T_now st pre s fs1 f as1 in let c' := removelast (r_attr T_now st CField a) in
+  nth_error (tlines T_now st ds) k = Some (PStmt (st_indent st) (r_attr T_now st CField a))
+  /\ parse (replace_line st ds k c') = Error {| e_line := 1 + Z.of_nat k; e_col := len (st_indent st) + 1 + len c'; e_kind := EToken |}.
+Proof.
+  intros st pre s post fs1 f fs2 as1 a as2 k0 Hk Hf Hst.
+  exact (SyntaxRejectBodyProofs.member_attribute_missing_close_doc T_now terminals_ok eq_refl st Hst (cr_now st) pre s post fs1 f fs2 as1 a as2 k0 Hk Hf).
+Qed.
+Print Assumptions corrupt_rejected_missing_closing_parenthesis_member_attribute_partial.
+
+(* [core] `unknown-condition-operator`, complete (the gap of corrupt_rejected_condition_operator_partial closed: members of any name) *)
+Theorem corrupt_rejected_condition_operator : forall st bad pre s post fs1 n ty cnd attrs c fs2,
+  first_prefix (cond_ops T_now) bad = None -> stops is_ws bad = true -> plainc bad = true ->
+  wf_style st = true -> wf_doc (pre ++ IDecl (DStruct s) :: post) = true -> s_fields s = fs1 ++ Field n ty (VCond cnd) DispNone attrs c :: fs2 ->
+  let f := Field n ty (VCond cnd) DispNone attrs c in
+  let ds := pre ++ IDecl (DStruct s) :: post in let k := member_line T_now st pre s fs1 f in
+  let head := of_string n ++ [32; 61; 32] ++ r_ftype T_now st ty ++ [32] ++ kw_if T_now ++ [32] ++ cv_text T_now st (c_value cnd) ++ [32] in
+  nth_error (tlines T_now st ds) k = Some (PStmt (st_indent st) (r_field T_now st f))
+  /\ parse (replace_line st ds k (head ++ bad)) = Error {| e_line := 1 + Z.of_nat k; e_col := len (st_indent st) + 1 + len head; e_kind := EToken |}.
+Proof.
+  intros st bad pre s post fs1 n ty cnd attrs c fs2 Hb Hws Hp Hst.
+  exact (SyntaxRejectBodyProofs.member_condition_operator_all_doc T_now terminals_ok eq_refl st Hst (cr_now st) bad pre s post fs1 n ty cnd attrs c fs2 Hb Hws Hp).
+Qed.
+Print Assumptions corrupt_rejected_condition_operator.
+
+(* [core] `trailing-text` (and `two-statements-on-one-line` when the second statement does not start with `if`) on ANY plain member
+   without condition, of any name.  MISSING for the operators: the other forms of members and the other kinds of lines. *)
+Theorem corrupt_rejected_trailing_text_plain_member_partial : forall st X pre s post fs1 n ty attrs c fs2,
+  strip_prefix (kw_if T_now) X = None -> stops is_ws X = true -> X <> [] -> plainc X = true ->
+  wf_style st = true -> wf_doc (pre ++ IDecl (DStruct s) :: post) = true -> s_fields s = fs1 ++ Field n ty VNone DispNone attrs c :: fs2 ->
+  let f := Field n ty VNone DispNone attrs c in
+  let ds := pre ++ IDecl (DStruct s) :: post in let k := member_line T_now st pre s fs1 f in
+  let head := of_string n ++ [32; 61; 32] ++ r_ftype T_now st ty ++ [32] in
+  nth_error (tlines T_now st ds) k = Some (PStmt (st_indent st) (r_field T_now st f))
+  /\ parse (replace_line st ds k (head ++ X)) = Error {| e_line := 1 + Z.of_nat k; e_col := len (st_indent st) + 1 + len head; e_kind := EToken |}.
+Proof.
+  intros st X pre s post fs1 n ty attrs c fs2 Hif Hws Hne Hp Hst.
+  exact (SyntaxRejectBodyProofs.member_trailing_text_all_doc T_now terminals_ok eq_refl st Hst (cr_now st) X pre s post fs1 n ty attrs c fs2 Hif Hws Hne Hp).
+Qed.
+Print Assumptions corrupt_rejected_trailing_text_plain_member_partial.
+
+(* [core] `unknown-function` on members named `__value__` (the gap of corrupt_rejected_operand_member_partial) *)
+Theorem corrupt_rejected_operand_value_member : forall st X pre s post fs1 n ty v attrs c fs2,
+  stops is_ws X = true -> plainc X = true -> raw_type T_now X = None -> raw_intty T_now X = None -> strip_prefix (kw_array T_now) X = None ->
+  of_string n = value_placeholder T_now ->
+  wf_style st = true -> wf_doc (pre ++ IDecl (DStruct s) :: post) = true -> s_fields s = fs1 ++ Field n ty v DispNone attrs c :: fs2 ->
+  let f := Field n ty v DispNone attrs c in let ds := pre ++ IDecl (DStruct s) :: post in let k := member_line T_now st pre s fs1 f in
+  nth_error (tlines T_now st ds) k = Some (PStmt (st_indent st) (r_field T_now st f))
+  /\ parse (replace_line st ds k (of_string n ++ [32; 61; 32] ++ X))
+     = Error {| e_line := 1 + Z.of_nat k; e_col := len (st_indent st) + 1 + len (of_string n) + 3; e_kind := EToken |}.
+Proof.
+  intros st X pre s post fs1 n ty v attrs c fs2 Hws Hp Ht Hi Ha Hvp Hst.
+  exact (SyntaxRejectBodyProofs.member_value_bad_operand_doc T_now terminals_ok eq_refl st Hst (cr_now st) X pre s post fs1 n ty v attrs c fs2 Hws Hp Ht Hi Ha Hvp).
+Qed.
+Print Assumptions corrupt_rejected_operand_value_member.
+
+(* ------------------------------------------------------------------------------------------------------------------ *)
+(* the final line end, complete *)
+
+(* [core] the gap of corrupt_rejected_final_line_end_partial closed: when the last item is a free comment, the comment token is left
+   unterminated; the text is rejected at its end, with the line on which that comment starts *)
+Theorem corrupt_rejected_final_line_end_comment : forall st ds0 c,
+  wf_style st = true -> wf_doc (ds0 ++ [IComment c]) = true ->
+  parse (delete_final_line_end (render st (ds0 ++ [IComment c])))
+  = Error {| e_line := 1 + Z.of_nat (length (tlines T_now st ds0)); e_col := 0; e_kind := EEnd |}.
+Proof.
+  intros st ds0 c Hst Hwf.
+  exact (SyntaxRejectEofProofs.final_line_end_rejected_comment T_now terminals_ok st ds0 c eq_refl eq_refl Hst Hwf).
+Qed.
+Print Assumptions corrupt_rejected_final_line_end_comment.
+
+(* [core] `deleted-final-line-end`, complete: EVERY rendered document with all trailing CR / LF removed is rejected at the end of the
+   text (the line is given by the two theorems for the two kinds of last item) *)
+Theorem corrupt_rejected_final_line_end : forall st ds,
+  wf_style st = true -> wf_doc ds = true ->
+  exists pos, parse (delete_final_line_end (render st ds)) = Error pos /\ e_kind pos = EEnd /\ e_col pos = 0
+    /\ 1 <= e_line pos <= Z.of_nat (length (tlines T_now st ds)).
+Proof.
+  intros st ds Hst Hwf.
+  destruct ds as [|x0 ds1]; [discriminate|]. destruct (exists_last (l := x0 :: ds1) ltac:(discriminate)) as [ds0 [it E]]. rewrite E in *. clear E.
+  destruct it as [d|p|c].
+  - destruct (corrupt_rejected_final_line_end_partial st ds0 (IDecl d) Hst Hwf ltac:(discriminate)) as [tl0 [ind [c [n [Etl Ep]]]]].
+    eexists. split; [exact Ep|]. cbn [e_kind e_col e_line]. repeat split; [lia|]. rewrite Etl, app_length. cbn [length]. lia.
+  - destruct (corrupt_rejected_final_line_end_partial st ds0 (IImport p) Hst Hwf ltac:(discriminate)) as [tl0 [ind [c [n [Etl Ep]]]]].
+    eexists. split; [exact Ep|]. cbn [e_kind e_col e_line]. repeat split; [lia|]. rewrite Etl, app_length. cbn [length]. lia.
+  - eexists. split; [exact (corrupt_rejected_final_line_end_comment st ds0 c Hst Hwf)|]. cbn [e_kind e_col e_line]. repeat split; [lia|].
+    unfold tlines. rewrite flat_map_app, app_length. cbn [flat_map]. rewrite app_nil_r. unfold item_tlines. rewrite !app_length. cbn [length].
+    fold (tlines T_now st ds0). lia.
+Qed.
+Print Assumptions corrupt_rejected_final_line_end.
+
 (* non-vacuity *)
 Example rejected_example :
   parse [117; 115; 105; 110; 103; 32; 70; 111; 111; 32; 61; 32; 117; 105; 110; 116; 50; 52; 10]
@@ -348,3 +1034,175 @@ Example premises_nonvacuous :
   /\ ex_line_of (parse (struct_body_deleted st (firstn 1 ex_doc) ex_pair (skipn 2 ex_doc))) = 4.
 Proof. vm_compute. repeat split; try reflexivity; try discriminate; auto. Qed.
 Print Assumptions premises_nonvacuous.
+
+(* non-vacuity of the theorems about sites inside declarations: a document with an alias, an enum (comment, attribute, two values, the
+   second with a comment) and a struct (two attributes; three members, the second with two attributes and a condition) in the default
+   style meets the premises of every theorem of that part at the sites named below; the corrupted texts are rejected at the lines and
+   columns the theorems state (here by evaluation of the model parser; lark reports the same positions) *)
+Definition ex_u8 : intty := {| it_unsigned := true; it_size := 1; it_sizeref := None |}.
+Definition ex2_alias : item := IDecl (DAlias "Amount" (LInt ex_u64) None).
+Definition ex2_red : enum_value := {| ev_name := "RED"; ev_value := 1; ev_comment := None |}.
+Definition ex2_blue : enum_value := {| ev_name := "BLUE"; ev_value := 2; ev_comment := Some "second"%string |}.
+Definition ex2_bitwise : attribute := {| at_name := "is_bitwise"; at_values := [] |}.
+Definition ex2_enum : item := IDecl (DEnum "Color" ex_u8 [ex2_red; ex2_blue] (Some [ex2_bitwise]) (Some "colors"%string)).
+Definition ex2_aligned : attribute := {| at_name := "is_aligned"; at_values := [] |}.
+Definition ex2_size : attribute := {| at_name := "size"; at_values := [AvStr "count"] |}.
+Definition ex2_constrained : attribute := {| at_name := "is_byte_constrained"; at_values := [] |}.
+Definition ex2_sort : attribute := {| at_name := "sort_key"; at_values := [AvStr "weight"] |}.
+Definition ex2_cond : conditional := {| c_value := CvName "RED"; c_op := "equals"; c_link := "color" |}.
+Definition ex2_count : field := Field "count" (FInt ex_u8) VNone DispNone None None.
+Definition ex2_flag : field := Field "flag" (FInt ex_u8) (VCond ex2_cond) DispNone (Some [ex2_constrained; ex2_sort]) None.
+Definition ex2_color : field := Field "color" (FName "Color") VNone DispNone None None.
+Definition ex2_body : struct :=
+  {| s_name := "Body"; s_disp := SdNone; s_fields := [ex2_count; ex2_flag; ex2_color];
+     s_factory_type := None; s_attrs := Some [ex2_aligned; ex2_size]; s_comment := None; s_requires_unaligned := false |}.
+Definition ex2_struct : item := IDecl (DStruct ex2_body).
+Definition ex2_doc : list item := [ex2_alias; ex2_enum; ex2_struct].
+Definition ex_pos (r : result (list item)) : Z * Z := match r with Error pos => (e_line pos, e_col pos) | _ => (0, 0) end.
+
+Example site_premises_nonvacuous :
+  let st := default_style in let pre2 := [ex2_alias; ex2_enum] in
+  wf_style st = true /\ wf_doc ex2_doc = true
+  /\ ex2_doc = pre2 ++ IDecl (DStruct ex2_body) :: [] /\ ex2_doc = [ex2_alias] ++ ex2_enum :: [ex2_struct] /\ ex2_doc = [] ++ ex2_alias :: [ex2_enum; ex2_struct]
+  (* members: `flag = ...` is member 1 of the struct, with attributes in front; `count = uint8` is member 0 *)
+  /\ (s_fields ex2_body = [ex2_count] ++ ex2_flag :: [ex2_color] /\ field_name ex2_flag = Some "flag"%string
+      /\ member_line T_now st pre2 ex2_body [ex2_count] ex2_flag = 15%nat
+      /\ ex_pos (parse (replace_line st ex2_doc 15 (of_string "flag ="))) = (16, 8)
+      /\ first_prefix (cond_ops T_now) (of_string "zzq color") = None /\ stops is_ws (of_string "zzq color") = true /\ wf_prop T_now "flag"%string = true
+      /\ ex_pos (parse (replace_line st ex2_doc 15 (of_string "flag = uint8 if RED zzq color"))) = (16, 22)
+      /\ s_fields ex2_body = [] ++ ex2_count :: [ex2_flag; ex2_color]
+      /\ forallb (fun x => negb (is_prefix x [50; 52])) (int_widths T_now) = true
+      /\ ex_pos (parse (replace_line st ex2_doc 12 (of_string "count = uint24"))) = (13, 10)
+      /\ strip_prefix (kw_if T_now) (of_string "zz") = None /\ ex_pos (parse (replace_line st ex2_doc 12 (of_string "count = uint8 zz"))) = (13, 16))
+  (* attribute lines of the member `flag`: @is_byte_constrained (no pending attributes) and @sort_key(weight) (one pending) *)
+  /\ (field_attrs ex2_flag = Some ([] ++ ex2_constrained :: [ex2_sort]) /\ field_attrs ex2_flag = Some ([ex2_constrained] ++ ex2_sort :: [])
+      /\ member_attr_line T_now st pre2 ex2_body [ex2_count] ex2_flag [ex2_constrained] = 14%nat
+      /\ find_attr (attr_tables T_now (Some CField)) (of_string "zzq(weight)") = None
+      /\ ex_pos (parse (replace_line st ex2_doc 14 (of_string "@zzq(weight)"))) = (15, 3)
+      /\ attr_kind T_now CField (of_string "is_byte_constrained") = Some AkZero
+      /\ ex_pos (parse (replace_line st ex2_doc 13 (of_string "@is_byte_constrained(zz)"))) = (14, 22)
+      /\ attr_kind T_now CField (of_string "sort_key") = Some AkSingle
+      /\ ex_pos (parse (replace_line st ex2_doc 14 (of_string "@sort_key()"))) = (15, 12))
+  (* enum values: BLUE is value 1, with a comment in front *)
+  /\ ([ex2_red; ex2_blue] = [ex2_red] ++ ex2_blue :: []
+      /\ value_line T_now st [ex2_alias] "Color" ex_u8 (Some [ex2_bitwise]) (Some "colors"%string) [ex2_red] ex2_blue = 7%nat
+      /\ ex_pos (parse (replace_line st ex2_doc 7 (of_string "BLUE ="))) = (8, 8)
+      /\ ex_pos (parse (replace_line st ex2_doc 7 (of_string "blue = 2"))) = (8, 2))
+  (* top level: keyword lines of the alias (0), the enum (4, after comment and attribute), the struct (11, after two attributes);
+     attribute lines of the struct (9, 10) *)
+  /\ (keyword_line T_now st [] ex2_alias = 0%nat /\ keyword_line T_now st [ex2_alias] ex2_enum = 4%nat /\ keyword_line T_now st pre2 ex2_struct = 11%nat
+      /\ ex_pos (parse (replace_line st ex2_doc 0 (of_string "using Amount ="))) = (1, 15)
+      /\ ex_pos (parse (replace_line st ex2_doc 4 (of_string "enum Color : uint128"))) = (5, 14)
+      /\ raw_type T_now (of_string "color : uint8") = None /\ ex_pos (parse (replace_line st ex2_doc 4 (of_string "enum color : uint8"))) = (5, 6)
+      /\ raw_type T_now (of_string "B") = None /\ ex_pos (parse (replace_line st ex2_doc 11 (of_string "struct B"))) = (12, 8)
+      /\ raw_type T_now (of_string "BODY") = None /\ ex_pos (parse (replace_line st ex2_doc 11 (of_string "struct BODY"))) = (12, 8)
+      /\ first_prefix (struct_modifiers T_now) (of_string "zzq Color : uint8") = None
+      /\ ex_pos (parse (replace_line st ex2_doc 4 (of_string "zzq Color : uint8"))) = (5, 1)
+      /\ item_attr_list ex2_struct = [ex2_aligned] ++ ex2_size :: [] /\ item_attr_list ex2_struct = [] ++ ex2_aligned :: [ex2_size]
+      /\ attribute_line T_now st pre2 ex2_struct [ex2_aligned] = 10%nat
+      /\ find_attr (attr_tables T_now (pa_ctx (pa_of (item_ctx ex2_struct) [ex2_aligned]))) (of_string "zzq(count)") = None
+      /\ ex_pos (parse (replace_line st ex2_doc 10 (of_string "@zzq(count)"))) = (11, 2)
+      /\ attr_kind T_now (item_ctx ex2_struct) (of_string "is_aligned") = Some AkZero
+      /\ ex_pos (parse (replace_line st ex2_doc 9 (of_string "@is_aligned(zz)"))) = (10, 12)
+      /\ attr_kind T_now (item_ctx ex2_struct) (of_string "size") = Some AkSingle
+      /\ ex_pos (parse (replace_line st ex2_doc 10 (of_string "@size()"))) = (11, 7)
+      /\ ex_pos (parse (insert_line st ex2_doc 11 member_text)) = (12, 1) /\ ex_pos (parse (insert_line st ex2_doc 10 member_text)) = (11, 1)
+      /\ fixed_arity AkSingle = true /\ removelast (r_attr T_now st CStruct ex2_size) = of_string "@size(count"
+      /\ ex_pos (parse (replace_line st ex2_doc 10 (of_string "@size(count"))) = (11, 12)
+      /\ removelast (r_attr T_now st CField ex2_sort) = of_string "@sort_key(weight"
+      /\ ex_pos (parse (replace_line st ex2_doc 14 (of_string "@sort_key(weight"))) = (15, 18)).
+Proof. vm_compute. repeat split; reflexivity. Qed.
+Print Assumptions site_premises_nonvacuous.
+
+(* non-vacuity of the final-line-end theorem for a document that ends with a free comment (two comment lines) *)
+Example final_comment_nonvacuous :
+  let ds := [ex2_alias; IComment "first line
+second line"%string] in
+  wf_doc ds = true /\ ds = [ex2_alias] ++ [IComment "first line
+second line"%string]
+  /\ parse (delete_final_line_end (render default_style ds)) = Error {| e_line := 3; e_col := 0; e_kind := EEnd |}.
+Proof. vm_compute. repeat split; reflexivity. Qed.
+
+(* non-vacuity, second document: an alias of a buffer, an enum without attributes, a struct with a `comparer` attribute (two pairs, the
+   second with a transform) and a constant, a plain, a reserved and an array member *)
+Definition ex_u16 : intty := {| it_unsigned := true; it_size := 2; it_sizeref := None |}.
+Definition ex_u32 : intty := {| it_unsigned := true; it_size := 4; it_sizeref := None |}.
+Definition ex3_alias : item := IDecl (DAlias "Key" (LBuffer 32) None).
+Definition ex3_alpha : enum_value := {| ev_name := "ALPHA"; ev_value := 1; ev_comment := None |}.
+Definition ex3_enum : item := IDecl (DEnum "Kind" ex_u8 [ex3_alpha] None None).
+Definition ex3_comparer : attribute := {| at_name := "comparer"; at_values := [AvStr "weight"; AvNone; AvStr "key"; AvStr "ripemd_keccak_256"] |}.
+Definition ex3_tag : field := Field "TAG" (FInt ex_u8) (VNum 7) DispConst None None.
+Definition ex3_weight : field := Field "weight" (FInt ex_u16) VNone DispNone None None.
+Definition ex3_padding : field := Field "padding" (FInt ex_u32) (VNum 0) DispReserved None None.
+Definition ex3_items : field := Field "items" (FArray (mk_array (ElInt ex_u8) (SzName "weight"))) VNone DispNone None None.
+Definition ex3_item : struct :=
+  {| s_name := "Item"; s_disp := SdNone; s_fields := [ex3_tag; ex3_weight; ex3_padding; ex3_items];
+     s_factory_type := None; s_attrs := Some [ex3_comparer]; s_comment := None; s_requires_unaligned := false |}.
+Definition ex3_struct : item := IDecl (DStruct ex3_item).
+Definition ex3_doc : list item := [ex3_alias; ex3_enum; ex3_struct].
+
+Example site_premises_nonvacuous_2 :
+  let st := default_style in let pre2 := [ex3_alias; ex3_enum] in
+  wf_style st = true /\ wf_doc ex3_doc = true
+  /\ ex3_doc = pre2 ++ IDecl (DStruct ex3_item) :: [] /\ ex3_doc = [ex3_alias] ++ ex3_enum :: [ex3_struct] /\ ex3_doc = [] ++ ex3_alias :: [ex3_enum; ex3_struct]
+  (* keyword lines: type-name suffix on the three kinds of declarations, unknown function and width on the alias *)
+  /\ (keyword_line T_now st [] ex3_alias = 0%nat /\ keyword_line T_now st [ex3_alias] ex3_enum = 2%nat /\ keyword_line T_now st pre2 ex3_struct = 6%nat
+      /\ type_rest 95 = false /\ type_rest 45 = false /\ type_rest 46 = false
+      /\ ex_pos (parse (replace_line st ex3_doc 0 (of_string "using Key_x = binary_fixed(32)"))) = (1, 10)
+      /\ ex_pos (parse (replace_line st ex3_doc 2 (of_string "enum Kind-x : uint8"))) = (3, 10)
+      /\ ex_pos (parse (replace_line st ex3_doc 6 (of_string "struct Item.x"))) = (7, 12)
+      /\ raw_intty T_now (of_string "zzq(32)") = None /\ strip_prefix (kw_binary_fixed T_now) (of_string "zzq(32)") = None
+      /\ ex_pos (parse (replace_line st ex3_doc 0 (of_string "using Key = zzq(32)"))) = (1, 13))
+  (* the attribute line of the struct: unknown transform in the second pair *)
+  /\ (item_attr_list ex3_struct = [] ++ ex3_comparer :: [] /\ attribute_line T_now st pre2 ex3_struct [] = 5%nat
+      /\ attr_kind T_now (item_ctx ex3_struct) (of_string "comparer") = Some AkTransform
+      /\ forallb (wf_prop T_now) ["weight"%string] = true /\ wf_prop T_now "key"%string = true
+      /\ first_prefix (transform_names T_now) (of_string "zzq)") = None
+      /\ 64 :: of_string "comparer" ++ 40 :: props_text ["weight"%string] ++ of_string "key" ++ [33] ++ of_string "zzq)" = of_string "@comparer(weight, key!zzq)"
+      /\ ex_pos (parse (replace_line st ex3_doc 5 (of_string "@comparer(weight, key!zzq)"))) = (6, 23))
+  (* members: constant (7), plain (8), reserved (9), array (10) *)
+  /\ (s_fields ex3_item = [] ++ ex3_tag :: [ex3_weight; ex3_padding; ex3_items] /\ member_line T_now st pre2 ex3_item [] ex3_tag = 7%nat
+      /\ strip_prefix (kw_make_const T_now) (of_string "zzq(uint8, 7)") = None
+      /\ ex_pos (parse (replace_line st ex3_doc 7 (of_string "TAG = zzq(uint8, 7)"))) = (8, 8)
+      /\ const_rest 45 = false /\ ex_pos (parse (replace_line st ex3_doc 7 (of_string "TAG-X = make_const(uint8, 7)"))) = (8, 5)
+      /\ s_fields ex3_item = [ex3_tag] ++ ex3_weight :: [ex3_padding; ex3_items] /\ member_line T_now st pre2 ex3_item [ex3_tag] ex3_weight = 8%nat
+      /\ field_name ex3_weight = Some "weight"%string /\ wf_prop T_now "weight"%string = true /\ prop_rest 88 = false
+      /\ ex_pos (parse (replace_line st ex3_doc 8 (of_string "weightXx = uint16"))) = (9, 8)
+      /\ raw_prop T_now (of_string "w = uint16") = None /\ raw_const T_now (of_string "w = uint16") = None
+      /\ ex_pos (parse (replace_line st ex3_doc 8 (of_string "w = uint16"))) = (9, 2)
+      /\ raw_prop T_now (of_string "Weight = uint16") = None /\ raw_const T_now (of_string "Weight = uint16") = None
+      /\ ex_pos (parse (replace_line st ex3_doc 8 (of_string "Weight = uint16"))) = (9, 2)
+      /\ s_fields ex3_item = [ex3_tag; ex3_weight] ++ ex3_padding :: [ex3_items] /\ field_name ex3_padding = Some "padding"%string
+      /\ raw_type T_now (of_string "zzq(uint32, 0)") = None /\ raw_intty T_now (of_string "zzq(uint32, 0)") = None
+      /\ strip_prefix (kw_array T_now) (of_string "zzq(uint32, 0)") = None /\ strip_prefix (kw_make_reserved T_now) (of_string "zzq(uint32, 0)") = None
+      /\ strip_prefix (kw_sizeof T_now) (of_string "zzq(uint32, 0)") = None /\ strip_prefix (kw_inline_field T_now) (of_string "zzq(uint32, 0)") = None
+      /\ ex_pos (parse (replace_line st ex3_doc 9 (of_string "padding = zzq(uint32, 0)"))) = (10, 12)
+      /\ ex_pos (parse (replace_line st ex3_doc 10 (of_string "items = zzq(uint8, weight)"))) = (11, 10))
+  (* the value line of the enum *)
+  /\ ([ex3_alpha] = [] ++ ex3_alpha :: [] /\ value_line T_now st [ex3_alias] "Kind" ex_u8 None None [] ex3_alpha = 3%nat
+      /\ const_rest 120 = false /\ ex_pos (parse (replace_line st ex3_doc 3 (of_string "ALPHAxX = 1"))) = (4, 7))
+  (* missing `(`: the attribute of the struct, the constant / reserved / array members, the alias of a buffer *)
+  /\ (strip_prefix [40] (of_string "weight, key)") = None /\ ex_pos (parse (replace_line st ex3_doc 5 (of_string "@comparerweight, key)"))) = (6, 10)
+      /\ call_word T_now ex3_tag = Some (kw_make_const T_now) /\ call_word T_now ex3_padding = Some (kw_make_reserved T_now)
+      /\ call_word T_now ex3_items = Some (kw_array T_now) /\ of_string "items" <> value_placeholder T_now
+      /\ ex_pos (parse (replace_line st ex3_doc 7 (of_string "TAG = make_constuint8, 7)"))) = (8, 18)
+      /\ ex_pos (parse (replace_line st ex3_doc 9 (of_string "padding = make_reserveduint32, 0)"))) = (10, 25)
+      /\ ex_pos (parse (replace_line st ex3_doc 10 (of_string "items = arrayuint8, weight)"))) = (11, 15)
+      /\ ex_pos (parse (replace_line st ex3_doc 0 (of_string "using Key = binary_fixed32)"))) = (1, 25)).
+Proof. vm_compute. repeat split; try reflexivity; discriminate. Qed.
+Print Assumptions site_premises_nonvacuous_2.
+
+(* non-vacuity for members named `__value__`: a struct whose only member is `__value__ = uint8 if RED equals color` *)
+Definition ex4_value : field := Field "__value__" (FInt ex_u8) (VCond ex2_cond) DispNone None None.
+Definition ex4_struct : struct :=
+  {| s_name := "Flag"; s_disp := SdInline; s_fields := [ex4_value];
+     s_factory_type := None; s_attrs := None; s_comment := None; s_requires_unaligned := false |}.
+Definition ex4_doc : list item := [IDecl (DStruct ex4_struct)].
+Example value_member_nonvacuous :
+  let st := default_style in
+  wf_doc ex4_doc = true /\ ex4_doc = [] ++ IDecl (DStruct ex4_struct) :: [] /\ s_fields ex4_struct = [] ++ ex4_value :: []
+  /\ of_string "__value__" = value_placeholder T_now /\ member_line T_now st [] ex4_struct [] ex4_value = 1%nat
+  /\ ex_pos (parse (replace_line st ex4_doc 1 (of_string "__value__ = uint8 if RED zzq color"))) = (2, 27)
+  /\ ex_pos (parse (replace_line st ex4_doc 1 (of_string "__value__ = zzq(uint8)"))) = (2, 14)
+  /\ ex_pos (parse (replace_line st ex4_doc 1 (of_string "__value__ ="))) = (2, 13).
+Proof. vm_compute. repeat split; reflexivity. Qed.
